@@ -1636,4 +1636,36 @@ theorem mkEnv_origin (n m : ℕ) (t : ℝ) (j : ℕ) (hj : j < n + m) :
     have : j - n < m := by omega
     simp [this]
 
+/-- a dot product with a zero vector is zero -/
+theorem dot_replicate_zero (r : List ℝ) (n : ℕ) : DVec.dot r (List.replicate n (0 : ℝ)) = 0 := by
+  induction r generalizing n with
+  | nil => simp [dot_real]
+  | cons a as ih =>
+    cases n with
+    | zero => simp [dot_real]
+    | succ n => rw [List.replicate_succ, dot_cons, ih]; ring
+
+/-- **the value of the affine model at the origin is its constant term**: `(A·0 + B·0 + c1)_i = c1_i` on the fields of the
+linearisation -/
+theorem predict_origin (fs gs : List Fn) (x u : DVec ℝ) (t : ℝ) (i : ℕ) (hi : i < fs.length) :
+    ((linearize fs gs x u t).predict (List.replicate x.length 0) (List.replicate u.length 0)).1.getD i 0
+      = (linearize fs gs x u t).c1.getD i 0 := by
+  have lA : ∀ w : DVec ℝ, (bmv (jac fs 0 x.length (mkEnv x u t)) w).length = fs.length := by
+    intro w; simp [bmv, DMat.mulVec, jac]
+  have lB : ∀ w : DVec ℝ, (bmv (jac fs x.length u.length (mkEnv x u t)) w).length = fs.length := by
+    intro w; simp [bmv, DMat.mulVec, jac]
+  have lf : (evalAll fs (mkEnv x u t)).length = fs.length := by simp [evalAll]
+  have lc : (linearize fs gs x u t).c1.length = fs.length := by
+    simp [linearize, linAt, DVec.sub, lA, lB, lf]
+  have hA : (linearize fs gs x u t).A = jac fs 0 x.length (mkEnv x u t) := rfl
+  have hB : (linearize fs gs x u t).B = jac fs x.length u.length (mkEnv x u t) := rfl
+  unfold Lin.predict
+  simp only
+  unfold DVec.add
+  rw [getD_zipWith _ _ _ _ (by simp [hA, hB, lA, lB, hi]) (by rw [lc]; exact hi),
+    getD_zipWith _ _ _ _ (by simp [hA, lA, hi]) (by simp [hB, lB, hi]),
+    bmv_getD _ _ _ (by simp [hA, jac, hi]), bmv_getD _ _ _ (by simp [hB, jac, hi]),
+    dot_replicate_zero, dot_replicate_zero]
+  ring
+
 end PP.Dyn
